@@ -36,6 +36,7 @@ def _case(draw, tier):
     c["max_tau"] = draw(gen.maxtau_for(g))
     c["perm"] = list(draw(st.permutations(list(range(N)))))
     c["interval"] = draw(gen.interval_arg_for(g))
+    c["reconcile_off"] = draw(st.booleans())
     c["indices"] = draw(indices_for(N))
     c["compiled"] = draw(st.booleans())
     c["alias_equal"] = draw(st.booleans())
@@ -200,6 +201,38 @@ def run_case(case, ctx):
                       lambda: "multivariate spike_sync over %r: %r, total coincidences / "
                               "multiplicity of the pair profiles inside it: %r"
                       % (iv, float(Vi), float(e)))
+
+    # a selection through `indices` (valid input, reconciliation on or off): the profile
+    # is the aggregate of exactly the selected pairs
+    if not auto and case["indices"] is not None:
+        sel = list(case["indices"])
+        rk = {"Reconcile": False} if case.get("reconcile_off") else {}
+        Fs = ctx.call("multi_profile_indices", fn["profile"], sts, indices=sel, **rk, **kw)
+        spairs = [(min(sel[a], sel[b]), max(sel[a], sel[b])) for a in range(len(sel))
+                  for b in range(a + 1, len(sel))]
+        if fn["kind"] in ("pwc", "pwl"):
+            Fsm = M.model_of(Fs)
+            xs = sorted(set(t for pr in spairs for t in pprof[pr].x))
+            ctx.check(Fsm.x == xs, "breakpoints_union_indices",
+                      lambda: "indices=%r%s: x=%r, union over the selected pairs %r"
+                      % (sel, rk, ps.fl(Fsm.x), ps.fl(xs)))
+            for k in range(len(xs) - 1):
+                mid = (xs[k] + xs[k + 1]) / 2
+                e = sum(pprof[pr].limit(mid, "+") for pr in spairs) / len(spairs)
+                ctx.check(ps.close(float(Fsm.limit(mid, "+")), e, tol),
+                          "mean_of_selected_pair_profiles",
+                          lambda: "%s profile with indices=%r%s at t=%r: %r, mean of the "
+                                  "selected pairs %r" % (meas, sel, rk, float(mid),
+                                                         float(Fsm.limit(mid, "+")), float(e)))
+        else:
+            ev = {}
+            for pr in spairs:
+                for t, (y, mp) in pprof[pr].ev.items():
+                    cur = ev.get(t, (0, 0))
+                    ev[t] = (cur[0] + y, cur[1] + mp)
+            ctx.check(M.model_of(Fs).ev == ev, "eventwise_sum_of_selected_pairs",
+                      lambda: "SYNC profile with indices=%r%s differs from the sums over "
+                              "the selected pairs" % (sel, rk))
 
     # matrices ('auto' with `indices` is not asserted: pooling is unspecified)
     for ind in ((None,) if auto else (None, case["indices"])):
